@@ -686,10 +686,14 @@ func (w *world) apply(prev, st vlib.State, ev map[string]any, traces []string) (
 			if !w.expect(s, "sampler", op) {
 				return false
 			}
-			s.stale, s.sampler = append(s.stale, s.sampler), nil
+			stale := s.sampler
+			s.stale, s.sampler = append(s.stale, stale), nil
 			if !w.expect(s, "sidx", op) {
 				return false
 			}
+			// the chain has abandoned the call: let it return (it holds one of the global execution slots)
+			s.stale = s.stale[:len(s.stale)-1]
+			stale.reply <- map[string]string{}
 		default:
 			if !w.expect(s, "sidx", op) {
 				return false
